@@ -757,7 +757,9 @@ Definition exp_verdict (c : exp_case) : verdict :=
 Record mm_comp := { mc_id : nat; mc_n : nat; mc_S : lmx; mc_modes : list string }.
 Record mm_case := {
   mm_comps : list mm_comp;
-  mm_links : list (nat * nat * nat * nat);     (* connect_all (c1, base pin p1, c2, base pin p2) *)
+  mm_links : list (nat * nat * nat * nat * option (list string));
+                                               (* (c1, base pin p1, c2, base pin p2, None): connect_all;
+                                                  (..., Some ms): the modes ms wired one by one with connect *)
   mm_expo  : list (nat * nat * string);        (* exposed: component, base pin, mode *)
   mm_obs   : obs lmx
 }.
@@ -789,13 +791,14 @@ Fixpoint opt_all {A} (l : list (option A)) : option (list A) :=
 
 (* the multi-mode circuit itself: expanded blocks, one connection per common mode *)
 Definition mm_full_net (c : mm_case) : option (netlist BQCf) :=
-  let cs := flat_map (fun l => match l with (c1, p1, c2, p2) =>
+  let cs := flat_map (fun l => match l with (c1, p1, c2, p2, sel) =>
               match mm_find c c1, mm_find c c2 with
               | Some x1, Some x2 =>
                   map (fun m => match mm_spin c c1 p1 m, mm_spin c c2 p2 m with
                                 | Some a, Some b => Some (a, b)
                                 | _, _ => None
-                                end) (common_modes (mc_modes x1) (mc_modes x2))
+                                end)
+                      (match sel with None => common_modes (mc_modes x1) (mc_modes x2) | Some ms => ms end)
               | _, _ => [None]
               end end) (mm_links c) in
   let ex := map (fun t => match t with (id, p, m) => mm_spin c id p m end) (mm_expo c) in
@@ -816,8 +819,10 @@ Definition has_mode (c : mm_case) (id : nat) (m : string) : bool :=
 Definition mm_mode_net (c : mm_case) (m : string) : netlist BQCf :=
   {| comps := map (fun x => lst_of_comp {| c_id := mc_id x; c_n := mc_n x; c_S := mxl (mc_S x) |})
                   (filter (fun x => smem m (mc_modes x)) (mm_comps c));
-     conns := flat_map (fun l => match l with (c1, p1, c2, p2) =>
-                 if has_mode c c1 m && has_mode c c2 m then [((c1, p1), (c2, p2))] else [] end)
+     conns := flat_map (fun l => match l with (c1, p1, c2, p2, sel) =>
+                 if has_mode c c1 m && has_mode c c2 m &&
+                    match sel with None => true | Some ms => smem m ms end
+                 then [((c1, p1), (c2, p2))] else [] end)
                  (mm_links c);
      expo := flat_map (fun t => match t with (id, p, m') =>
                  if String.eqb m' m then [(id, p)] else [] end) (mm_expo c) |}.
